@@ -1,9 +1,44 @@
 # C16 registry entry: see lib/registry.py for the field meanings
 PROP = {
-    'rule': 'placeholder',
-    'assumptions': [],
+    'rule': 'rapid-generated cases. (b) *Sequential (PodEvictor; evictorProxy = EvictionLimiter.AllowEvict -> evict plugin -> Done): caps '
+            'per node / namespace / total drawn from {unset, 0, 1..3(5)}, 1-3 nodes, 1-3 namespaces, dry-run 1/10, 0..20 eviction requests '
+            '(pod on a node or unassigned, API outcome ok / NotFound / 429 / 500 decided by the generator), limiter Reset (new cycle) between '
+            'requests; oracle after every request. Non-trivial = not dry-run and in some capped scope more requests whose API call would '
+            'succeed than the cap allows. (c) *Interleaved / *Parallel: 2..16 worker goroutines with 1..3 requests each against one evictor; '
+            'the eviction endpoint of the fake clientset parks every in-flight call on its own channel; in each step rapid chooses among '
+            '"start the next worker" and "answer parked call X" (Interleaved: one action per step, quiescence between steps observed through '
+            'counters / a stop-the-world goroutine-state snapshot, so the interleaving of check - API call - count is exactly the drawn '
+            'schedule; Parallel: 1..4 actions back to back, built with -race). Non-trivial = at some quiescent point two workers were inside '
+            'Evict (API call in flight or queued on the evictor\'s lock) for one capped scope with exactly one slot left. (a) '
+            'arbitrationRounds: rapid state machine over a fake API (1-3 nodes, 1-3 namespaces, 1-4 workloads with 1..11 replicas and '
+            'ready/not-ready pods, bare pods, pods with max eviction cost; limits global / node / namespace in {unset, 0, 1..3}, per-workload '
+            'migrating / unavailable in {unset, 1..3, 10..100%}; pre-existing running and passed-pending jobs that may already exceed a '
+            'limit) with actions descheduler-evict (gated by arbitrator.Filter), external job, job starts running, running job evicts its '
+            'pod (+ not-ready replacement), job succeeds / fails / aborted, job deleted, pod readiness flips, pod vanishes, arbitration '
+            'round; every case ends with a round. Non-trivial = before some round a limited scope had exactly one free slot and at least two '
+            'admissible waiting jobs. distinct = FNV-64 of caps/limits + full history.',
+    'assumptions': [
+        'evictions issued = eviction API calls answered with success by the (fake) API server; a failed call evicts nothing and may be '
+        'followed by further attempts',
+        'in dry-run only "no API call" is asserted for PodEvictor (it does not count simulated evictions); evictorProxy counts simulated '
+        'evictions, its counters are compared with the accepted requests',
+        'pods carrying the explicit override annotation descheduler.alpha.kubernetes.io/evict (which bypasses every filter by design) are '
+        'not generated',
+        'at most one live PodMigrationJob per pod is generated (jobs are created for pods without a live job, or through arbitrator.Filter), '
+        'so "jobs" and "pods being migrated" coincide',
+        'a waiting job whose pod no longer exists is admitted unconditionally by the arbitrator (arbitrator.go filtering(pod==nil)); such a '
+        'job migrates nothing and is not counted by the oracle (class job-admitted-without-pod)',
+        'per-node and per-workload attribution of a job goes through its pod as it exists in the API during the round; per-workload limits '
+        'use the documented rounding of util.GetMaxMigrating/GetMaxUnavailable (percent rounded down, at least 1, defaults 10% / 2 / 1, '
+        'never more than the replicas), restated independently in the harness',
+        'the controller finder is a harness fake (pods of a workload = pods in the fake API controlled by it; replicas = workload spec); '
+        'job creation timestamps are distinct seconds so that the processing order of a round does not depend on Go map iteration',
+        'arbitrator restarts (empty in-memory arbitrated set with passed-pending jobs in the API) are not modelled',
+        'Parallel tests: the Go scheduler decides the order inside a batch, so which interleaving is explored is not a pure function of the '
+        'seed there (the oracle holds for every interleaving of correct code); the Interleaved tests are deterministic',
+    ],
     'units': [
-        # shared machinery of the two eviction harnesses: a brand-new package added by the overlay, no tests of its own
+        # shared machinery of the two eviction harnesses: a brand-new package added by the build overlay, no tests of its own
         {'name': 'kit', 'pkg': 'pkg/verifkit/c16kit', 'files': ['C16/c16kit.go'], 'tests': []},
         {'name': 'evictions',
          'pkg': 'pkg/descheduler/evictions',
@@ -17,6 +52,28 @@ PROP = {
          'tests': [{'run': 'TestVerifC16ProxySequential', 'quick': 2000, 'thorough': 15000},
                    {'run': 'TestVerifC16ProxyInterleaved', 'quick': 600, 'thorough': 3000},
                    {'run': 'TestVerifC16ProxyParallel', 'quick': 300, 'thorough': 3000, 'race': True, 'shrinktime': '5s'}]},
+        {'name': 'arbitrator',
+         'pkg': 'pkg/descheduler/controllers/migration/arbitrator',
+         'files': ['C16/c16_arbitrator_test.go'],
+         'tests': [{'run': 'TestVerifC16ArbitrationRounds', 'quick': 100, 'quick_shards': 4, 'thorough': 2000, 'steps': 40,
+                    'shrinktime': '15s'}]},
     ],
-    'manifest': {'technique': 'placeholder', 'text': 'placeholder', 'note': 'placeholder'},
+    'manifest': {
+        'technique': 'property-based testing (rapid): generated eviction request multisets with an independent counting oracle, '
+                     'generated and replayable interleavings of concurrent evictors around a harness-owned API yield point (plus -race), '
+                     'and a state machine over arbitration rounds with a counting oracle on the fake API',
+        'text': 'Generated-input search. Evictions: every request sequence / every generated interleaving of 2-16 concurrent callers of '
+                'PodEvictor.Evict and of the framework evictorProxy is checked at quiescence against a plain count of the eviction API calls '
+                'that succeeded: per node / namespace / total never above the cap, reported counters equal to that count, a refused request '
+                'reaches neither the API server nor the counters nor the event recorder, dry-run reaches the API server never; the concurrent '
+                'variant is also built with the race detector. Arbitration: after every round of the real arbitrator (real sort chain, real '
+                'filter wiring) the jobs that are running or passed are counted from the fake API per node, namespace, workload and globally '
+                'and, per workload, the pods that are not ready or being migrated; each count must be within the limit or not above its value '
+                'before the round; a job that left the round Failed must have a reason other than missing headroom, a refused job must still '
+                'be waiting and Pending, and Filter must refuse a pod that has a live job. Exploration, not proof: interleavings are sampled '
+                'at the granularity of the API call; absence of violations over the sampled cases.',
+        'note': 'fake clientset / controller-runtime fake client with the field indexes; harness controller finder; evict-annotation override '
+                'and arbitrator restart not generated; one live job per pod; rapid\'s PRNG and shrinker; inside a Parallel batch the Go '
+                'scheduler is not controlled',
+    },
 }
